@@ -1547,7 +1547,7 @@ func main() {
 		return
 	}
 	r := run.Rand
-	graphs := run.Scale(1100, 5000)
+	graphs := run.Scale(1100, 4200)
 	for i := 0; i < graphs && hangs < 1; i++ {
 		var g *dag.Graph
 		if i%3 == 2 {
